@@ -361,6 +361,15 @@ func (c *Context) Quo(d, x, y *Decimal) (Condition, error) {
 				// setExponent.
 				nd = unknownNumDigits
 			}
+		} else {
+			// The quotient is subnormal and is rounded to Etiny by setExponent,
+			// which discards at least one of its digits. Append a sticky digit
+			// that stands for the non-zero remainder so that this rounding sees
+			// the whole discarded part (and reports Inexact).
+			d.Coeff.Mul(&d.Coeff, bigTen)
+			d.Coeff.Add(&d.Coeff, bigOne)
+			adjExp10++
+			nd++
 		}
 	}
 
